@@ -42,7 +42,7 @@ def components(solver, X, y, rng):
     from skglm.utils.jit_compilation import compiled_clone
     from skglm import datafits, penalties
     n, p = X.shape
-    if solver in ('AndersonCD',):
+    if solver in ('AndersonCD', 'GramCD'):
         df, pen = datafits.Quadratic(), penalties.L1(0.1 * np.max(np.abs(X.T @ (y - y.mean()))) / n)
         kind = 'quad-l1'
     elif solver == 'ProxNewton':
@@ -95,11 +95,50 @@ def true_violation(kind, X, y, w, fit_intercept, pen):
     return max(sc.max(), abs(raw.sum()) if fit_intercept else 0.), z
 
 
+def anderson_ws_size(args=None, model=None):
+    """AndersonCD on an ill-conditioned design, WeightedL1 with two unpenalised features whose coefficients start at zero and a
+    warm start supported on the penalised features: the working set must hold support U unpenalised (4 features)"""
+    from skglm.solvers import AndersonCD
+    from skglm.datafits import Quadratic
+    from skglm.penalties import WeightedL1
+    from skglm.utils.jit_compilation import compiled_clone
+    df = compiled_clone(Quadratic())
+    wts = np.array([1., 1., 0., 0.])
+    for seed in range(4):
+        rng = np.random.RandomState(seed)
+        n, p = 30, 4
+        b = rng.randn(n)
+        E = rng.randn(n, p)
+        E -= np.outer(b, b @ E) / (b @ b)
+        X = np.asfortranarray(b[:, None] + 0.3 * E)
+        y = X @ np.array([1., -2., 3., -2.])
+        pen = compiled_clone(WeightedL1(1e-4, wts))
+        w0 = np.array([0.8, -0.8, 0., 0.])
+        xw0 = X @ w0
+        with warnings.catch_warnings():
+            warnings.simplefilter('ignore')
+            w, _, stop = AndersonCD(max_iter=100, max_epochs=1000, p0=1, tol=1e-8, fit_intercept=False).solve(X, y, df, pen, w0, xw0)
+        g = X.T @ (X @ w - y) / n
+        viol = float(np.max(pen.subdiff_distance(w, g, np.arange(p))))
+        buf = float(np.max(np.abs(xw0 - X @ w)))
+        rec = dict(solver='AndersonCD', scenario='ill-conditioned X = b 1^T + 0.3 E (E orthogonal to b), WeightedL1(1e-4, [1,1,0,0]), '
+                   'w_init=[0.8,-0.8,0,0], p0=1, fit_intercept=False, tol=1e-8', seed=seed, stop_crit=float(stop),
+                   recomputed_violation=viol, buffer_error=buf)
+        if (stop <= 1e-8 and viol > 1e-6) or buf > 1e-6:
+            return dict(confirmed=True, detail='working set smaller than support U unpenalised: certified point is not optimal / '
+                        'caller buffer inconsistent', inputs=rec)
+    return dict(confirmed=False, detail='working-set scenario passes', inputs={})
+
+
 def solver_cert(args, model):
     """stop_crit <= tol must imply: recomputed violation <= stop_crit (+ float slack); Xw buffer == X w + b"""
     import skglm.solvers as S
     name = args['solver']
-    fi = _b(model, 'self_fit_intercept', True)
+    if name == 'AndersonCD':
+        r = anderson_ws_size()
+        if r['confirmed']:
+            return r
+    fi = _b(model, 'self_fit_intercept', True) and name != 'GramCD'      # GramCD.solve takes no intercept
     sp = _b(model, 'X_is_sparse', False)
     mi = min(max(_i(model, 'self_max_iter', 1), 0), 6)
     strat = {1: 'subdiff', 2: 'fixpoint'}.get(_i(model, 'self_ws_strategy', 1), 'subdiff')
@@ -113,11 +152,14 @@ def solver_cert(args, model):
                 try:
                     df, pen, yy, kind = components(name, X, y, rng)
                     kw = dict(max_iter=budget, tol=1e-6, fit_intercept=fi)
+                    if name == 'GramCD':
+                        kw.update(use_acc=_b(model, 'self_use_acc', False), greedy_cd=_b(model, 'self_greedy_cd', False))
                     if name in ('AndersonCD', 'ProxNewton', 'GroupBCD'):
                         kw['ws_strategy'] = strat
                     if name in ('AndersonCD', 'GroupBCD'):
                         kw['max_epochs'] = max(1, min(_i(model, 'self_max_epochs', 7), 50))
-                    kw['p0'] = max(1, min(_i(model, 'self_p0', 2), 10))
+                    if name != 'GramCD':
+                        kw['p0'] = max(1, min(_i(model, 'self_p0', 2), 10))
                     solver = getattr(S, name)(**kw)
                     p = X.shape[1]
                     w0 = xw0 = None
@@ -132,7 +174,7 @@ def solver_cert(args, model):
                         Xin = X
                     with warnings.catch_warnings():
                         warnings.simplefilter('ignore')
-                        w, objs, stop = solver.solve(Xin, yy, df, pen, w0, xw0)
+                        w, objs, stop = solver.solve(Xin, yy, None if name == 'GramCD' else df, pen, w0, xw0)
                 except Exception as ex:     # noqa
                     tried.append(f'seed={seed} budget={budget} warm={warm}: raised {type(ex).__name__}: {str(ex)[:80]}')
                     continue
